@@ -100,6 +100,32 @@ claim("C16",
       "conservation totals, centroid distances, identity-map equivalence (value-level)",
       "DESIGN.md section 6 C16")
 
+claim("C03",
+      "Every store to an amount (mesh_x) in the stochastic engines is dominated by a test of mesh_chstt at the "
+      "polynomially identical index, the Euler derivative is zeroed before and accumulated only after the flag test of "
+      "the same entry (20 stores); the flag is read by no rate / propensity function; the chemostat map reaches Init "
+      "through the same transposition as the state; every Python subscript of the species-major state / chemostat "
+      "arrays has kind species*size+cell built from the function's own species and position; apply_reaction tests the "
+      "flag of the entry it updates and make_dxdtf multiplies each derivative by the factor of its own species.",
+      "static analysis: must-fact dataflow with polynomial index identity over the Clang AST, reader inventory, "
+      "vector-layout dataflow (VLAY), index-kind typing of Python subscripts",
+      "equality with the recorded initial value beyond 'never written after Init' (t = 0 processing is C14)",
+      "DESIGN.md section 6 C03")
+
+claim("C20",
+      "In all 13 readers the unknown-key check (policy error) precedes every key read; 15 mandatory keys raise when "
+      "absent on every returning path; the 13 dimensioned setters and 6 helpers carry the dimension of their field "
+      "and the owner's units system; enumerated setters (policies, modes, boundary axes and modes, unit symbols, "
+      "environment names, grid sizes, cell_env length, labels, network validity) raise on the complement of their "
+      "set; every function with a position parameter validates or delegates it before any other use and the "
+      "validators entail the two-sided range; coarse-graining map values, environment indices and graph edge "
+      "endpoints are range-checked on both sides before use.",
+      "static analysis: ordering / must-fact dataflow over the Python ast, constant folding of dimension helpers "
+      "against an oracle table, literal-set agreement, truth-table entailment of range tests",
+      "that every invalid value of every field is rejected (only the listed classes); the tokeniser on malformed "
+      "unit text (C18)",
+      "DESIGN.md section 6 C20")
+
 NOT_YET = {}
 
 def main():
